@@ -148,6 +148,7 @@ class Check:
     s.distinct = set()
     s.extra = {}
     s.more_for_key = {}
+    s.speculative_rejected = 0
     try:
       s.kf = json.load(open(KNOWN))
     except Exception:
@@ -178,13 +179,13 @@ class Check:
     for smp in res.get('samples', ())[:2]:
       if len(s.samples) < 12: s.samples.append(smp)
     for v in res.get('violations', ()):
-      s.candidate(v['key'], v['what'], v['replay'])
+      s.candidate(v['key'], v['what'], v['replay'], v.get('speculative', False))
     s.items.append({'item': name, 'wall_s': res.get('wall_s'), 'obligations': res.get('obligations', 0),
                     'discharged': res.get('discharged', 0), 'paths': res.get('states', 0),
                     **{k: res[k] for k in ('note', 'verdict') if k in res}})
 
   # -- counterexamples --------------------------------------------------------------
-  def candidate(s, key, what, replay_body):
+  def candidate(s, key, what, replay_body, speculative=False):
     """a solver model: replay on the pristine code, report only what reproduces"""
     what = ' '.join(str(what).split())
     if key in [k for k, _, _ in s.violations] or key in [k for k, _ in s.known]:
@@ -194,6 +195,9 @@ class Check:
     s.replays += 1
     if ok is None:
       s.inconclusive.append(f"replay of {key} failed to run: {outp[-300:]}")
+      return False
+    if not ok and speculative:
+      s.speculative_rejected += 1      # proposed under a nondeterministic stub; the real code is right for this input
       return False
     if not ok:
       s.inconclusive.append(f"counterexample for {key} does NOT reproduce on the real code "
@@ -243,6 +247,7 @@ class Check:
       'inconclusive': s.inconclusive,
       'known_findings_reported': [k for k, _ in s.known],
       'further_counterexamples_per_key': s.more_for_key,
+      'stub_proposals_rejected_by_replay': s.speculative_rejected,
       'items': s.items if len(s.items) <= 400 else s.items[:400] + [{'truncated': len(s.items) - 400}],
       'trusted_base': ['z3 4.x/5.x', 'CPython evaluation of non-int operations', 'symx (self-tested)', 'oracles in /verif/specs'],
       'checker_cmd': f"./vcheck {s.prop} {s.tier}",
